@@ -25,6 +25,10 @@ func Run(r *ev.Run) {
 		"an observed callback never shares its request with a hand-out: with an empty job queue it rides in a GET_JOB request (PackageTransmitAll), while jobs are queued it is sent as a package that does not ask for jobs (PackageTransmitNow); draining the queue and its 'Send Task to Agent' console line belong to the hand-out step",
 		"outbound-dial probe: only the synchronous dial of the reverse-port-forward path (PortFwdOpen) is observable deterministically; the socks path dials from the operator side and is not driven",
 	)
+	if os.Getenv("VERIF_C05_ONLY_LAUNDER") != "" { // development
+		runLaunder(r)
+		return
+	}
 	if os.Getenv("VERIF_RACE_PASS") != "" {
 		runFree(r)
 		return
@@ -59,6 +63,7 @@ func Run(r *ev.Run) {
 	if _, _, worker := par.Shard(); !worker {
 		runPivotPair(r)
 		runIssueVsCompletion(r)
+		runLaunder(r)
 		// the other server flags are not "agent log forwarding": with all of them on and
 		// --send-logs off the completion table and the whole sweep run once more
 		func() {
